@@ -154,6 +154,11 @@ func (s *subscriptionActor) onLocalPublishRequest(ctx ActorContext, m *messages.
 }
 
 func (s *subscriptionActor) onSharedSubscriptionStatusChangedMessage(ctx ActorContext, m *sharedSubscriptionStatusChangedMessage) {
+	// 本节点自身不应被视为远端节点（集群的联络提供者在启动时同样会通告本节点），否则本地发布的消息将经由广播再次投递给本地订阅者
+	if m.Address == ctx.System().PhysicalAddress() {
+		ctx.Reply(nil) // 告知完成
+		return
+	}
 	if m.Closed {
 		delete(s.sas, m.Address)
 	} else {
